@@ -1,10 +1,436 @@
 /-
-  MdModel.SymParse — placeholder (model not written yet).
+  MdModel.SymParse — model of `SymbolParser` (breakpad-symbols/src/sym_file/parser.rs:408-744):
+  `parse_more` (trim to the last newline; sub-line attempt for an open FUNC / STACK CFI INIT with
+  the finish-and-resubmit fallback; blank lines; MODULE only at line 0; the line counter),
+  `parse_func_subline`, `finish_item`, `finish`, and the parser-local `into_rangemap_safe`
+  (range tables reuse `MdModel.RangeMap` of C08) — and the instantiation of the streaming loop
+  (`MdModel.Stream`) with it: `parseStream` is `SymbolFile::parse(reader, callback)`.
+  The output type `SymbolFile` mirrors the Rust struct field by field (the four statistics
+  counters are constant 0 and omitted).
+  Engine `sym` (C09, C10).
 -/
 import MdModel.Prelude
+import MdModel.RangeMap
+import MdModel.SymLine
+import MdModel.Stream
+import MdModel.Gen.SymConsts
+namespace MdModel.Sym
+open MdModel MdModel.RangeMap
+
+/-! ### orders used by the `sort()` calls (derived `Ord`, lexicographic in field order) -/
+
+/-- `String`/`Vec<u8>` order: byte-wise lexicographic, a proper prefix is smaller. -/
+def bytesLe : Bytes → Bytes → Bool
+  | [], _ => true
+  | _ :: _, [] => false
+  | a :: as, b :: bs => a < b || (a == b && bytesLe as bs)
+
+def bytesLt (a b : Bytes) : Bool := !bytesLe b a
+
+/-- `PublicSymbol: Ord` — `(address, name, parameter_size)` -/
+def publicLe (a b : PublicSymbol) : Bool :=
+  a.address < b.address || (a.address == b.address &&
+    (bytesLt a.name b.name || (a.name == b.name && a.parameterSize ≤ b.parameterSize)))
+
+/-- `Inlinee: Ord` — `(depth, address, size, call_file, call_line, origin_id)` -/
+def inlineeLe (a b : Inlinee) : Bool :=
+  a.depth < b.depth || (a.depth == b.depth &&
+  (a.address < b.address || (a.address == b.address &&
+  (a.size < b.size || (a.size == b.size &&
+  (a.callFile < b.callFile || (a.callFile == b.callFile &&
+  (a.callLine < b.callLine || (a.callLine == b.callLine && a.originId ≤ b.originId)))))))))
+
+/-- `CfiRules: Ord` — `(address, rules)` -/
+def cfiRulesLe (a b : CfiRules) : Bool :=
+  a.address < b.address || (a.address == b.address && bytesLe a.rules b.rules)
+
+/-! ### range tables with record values
+
+  `into_rangemap_safe` and `RangeMap::try_from_iter` only ever compare VALUES for equality.
+  `MdModel.RangeMap` works on numeric values, so each record is replaced by the position of its
+  first equal occurrence (`idxOf`): equal records ↦ equal numbers, distinct ↦ distinct. -/
+
+def withIds {α} [DecidableEq α] (vals : List α) (m : List Entry) : List (Rng × α) :=
+  m.filterMap fun (r, id) => vals[id]?.map fun v => (r, v)
+
+/-- `IntoRangeMapSafe::into_rangemap_safe` (the `Option<Range>` version, used for FUNC lines) -/
+def tableOpt {α} [DecidableEq α] (xs : List (Option Rng × α)) : Outcome (List (Rng × α)) :=
+  let vals := xs.map (·.2)
+  match safe (xs.map fun (r, v) => (r, vals.idxOf v)) with
+  | .panic s => .panic s
+  | .ok m => .ok (withIds vals m)
+
+/-- the parser-local `into_rangemap_safe` (parser.rs:727) -/
+def tableP {α} [DecidableEq α] (xs : List (Rng × α)) : Outcome (List (Rng × α)) :=
+  let vals := xs.map (·.2)
+  match safeP (xs.map fun (r, v) => (r, vals.idxOf v)) with
+  | .panic s => .panic s
+  | .ok m => .ok (withIds vals m)
+
+/-! ### parser state -/
+
+/-- `cur_item`: an open FUNC (with its sub-line vectors, newest first) or STACK CFI INIT
+    (add_rules newest first). -/
+inductive Cur where
+  | none
+  | func (f : Function) (lines : List SourceLine) (inlinees : List Inlinee)
+  | cfi (c : StackInfoCfi)
+  deriving Repr
+
+structure PState where
+  moduleId : Bytes := []
+  debugFile : Bytes := []
+  /-- `HashMap<u32,String>` as its insertion log, newest first (a later insert wins) -/
+  files : List (Nat × Bytes) := []
+  inlineOrigins : List (Nat × Bytes) := []
+  /-- newest first -/
+  publics : List PublicSymbol := []
+  /-- `Vec<(Range, Function)>`, newest first -/
+  functions : List (Rng × Function) := []
+  cfi : List (Rng × StackInfoCfi) := []
+  /-- the STACK WIN vectors as `insert_win_stack_info` keeps them (head = `last_mut()`);
+      the `tag` of a record is its index in the `…Infos` log -/
+  winFd : List (Rng × Rec) := []
+  winFpo : List (Rng × Rec) := []
+  /-- all FrameData / Fpo records seen, oldest first is `reverse` -/
+  winFdInfos : List StackInfoWin := []
+  winFpoInfos : List StackInfoWin := []
+  url : Option Bytes := none
+  lines : Nat := 0
+  cur : Cur := .none
+  deriving Repr
+
+structure SymbolFile where
+  moduleId : Bytes
+  debugFile : Bytes
+  /-- sorted by key (canonical view of the `HashMap`) -/
+  files : List (Nat × Bytes)
+  publics : List PublicSymbol
+  functions : List (Rng × Function)
+  inlineOrigins : List (Nat × Bytes)
+  cfiStackInfo : List (Rng × StackInfoCfi)
+  winStackFramedataInfo : List (Rng × StackInfoWin)
+  winStackFpoInfo : List (Rng × StackInfoWin)
+  url : Option Bytes
+  deriving Repr
+
+/-- `Function::memory_range`, `StackInfoCfi::memory_range`, `StackInfoWin::memory_range` are all
+    `RangeMap.mkRange address size`. -/
+def Function.memoryRange (f : Function) : Option Rng := mkRange f.address f.size
+def StackInfoCfi.memoryRange (c : StackInfoCfi) : Option Rng := mkRange c.init.address c.size
+
+/-- `finish_item` for a FUNC (parser.rs:662-681) -/
+def finishFunc (st : PState) (f : Function) (lines : List SourceLine) (inl : List Inlinee) :
+    Outcome PState :=
+  let ls := (lines.reverse.filter fun l => l.size > 0).map fun l => (mkRangeLine l.address l.size, l)
+  match tableOpt ls with
+  | .panic s => .panic s
+  | .ok tbl =>
+    -- `inlinees.retain(|i| i.size > 0); inlinees.sort();`
+    let f' : Function := { f with lines := tbl,
+                                  inlinees := (inl.reverse.filter fun i => i.size > 0).mergeSort inlineeLe }
+    match f'.memoryRange with
+    | some r => .ok { st with functions := (r, f') :: st.functions }
+    | none => .ok st
+
+/-- `finish_item` for a STACK CFI INIT (parser.rs:682-687) -/
+def finishCfi (st : PState) (c : StackInfoCfi) : PState :=
+  let c' : StackInfoCfi := { c with addRules := c.addRules.reverse.mergeSort cfiRulesLe }
+  match c'.memoryRange with
+  | some r => { st with cfi := (r, c') :: st.cfi }
+  | none => st
+
+/-- `self.cur_item.take()` followed by `finish_item` (no-op when nothing is open) -/
+def finishCur (st : PState) : Outcome PState :=
+  match st.cur with
+  | .none => .ok st
+  | .func f ls inl => finishFunc { st with cur := .none } f ls inl
+  | .cfi c => .ok (finishCfi { st with cur := .none } c)
+
+/-- what a FUNC sub-line yields -/
+inductive Sub where
+  | origin (id : Nat) (name : Bytes)
+  | inlinees (xs : List Inlinee)
+  | line (l : SourceLine)
+
+/-- `parse_func_subline` (parser.rs:634): dispatch by `starts_with` (a SPACE, not `space1`). -/
+def funcSubline : P Sub := fun i =>
+  if (kw "INLINE_ORIGIN ").isPrefixOf i then
+    (inlineOriginLine.bind fun (id, name) => P.pure (Sub.origin id name)) i
+  else if (kw "INLINE ").isPrefixOf i then
+    (inlineLine.bind fun xs => P.pure (Sub.inlinees xs)) i
+  else (funcLineData.bind fun l => P.pure (Sub.line l)) i
+
+inductive StepRes where
+  | ok (rest : Bytes) (st : PState)
+  | err (kind : Nat) (line : Nat)
+  | panic (site : String)
+
+/-- the `match line { .. }` of parse_more (parser.rs:536-626), without the line count -/
+def applyLine (st : PState) : Line → Except (Nat × Nat) (Outcome PState)
+  | .module _ _ id file =>
+    if st.lines ≠ 0 then .error (Stream.errModuleLate, st.lines)
+    else .ok (.ok { st with moduleId := id, debugFile := file })
+  | .infoUrl u => .ok (.ok { st with url := some u })
+  | .infoUnknown => .ok (.ok st)
+  | .file id name => .ok (.ok { st with files := (id, name) :: st.files })
+  | .inlineOrigin id name => .ok (.ok { st with inlineOrigins := (id, name) :: st.inlineOrigins })
+  | .public_ p => .ok (.ok { st with publics := p :: st.publics })
+  | .stackWin (.frameData s) =>
+    .ok (match insertWin st.winFd ⟨s.address, s.size, st.winFdInfos.length⟩ with
+      | .panic e => .panic e
+      | .ok v => .ok { st with winFd := v, winFdInfos := s :: st.winFdInfos })
+  | .stackWin (.fpo s) =>
+    .ok (match insertWin st.winFpo ⟨s.address, s.size, st.winFpoInfos.length⟩ with
+      | .panic e => .panic e
+      | .ok v => .ok { st with winFpo := v, winFpoInfos := s :: st.winFpoInfos })
+  | .stackWin .unhandled => .ok (.ok st)
+  | .function f => .ok (.ok { st with cur := .func f [] [] })
+  | .stackCfi c => .ok (.ok { st with cur := .cfi c })
+
+/-- the top-level part of one loop round (parser.rs:513-629); `st.cur = .none` here -/
+def topLevel (st : PState) (input : Bytes) : StepRes :=
+  match myEol input with
+  | .ok rest _ => .ok rest { st with lines := st.lines + 1 }
+  | _ =>
+    match line input with
+    | .ok rest l =>
+      match applyLine st l with
+      | .error (k, n) => .err k n
+      | .ok (.panic e) => .panic e
+      | .ok (.ok st') => .ok rest { st' with lines := st'.lines + 1 }
+    | _ => .err Stream.errFailedToParse st.lines
+
+/-- One line's worth of the `loop` in `parse_more`: the sub-line attempt for an open item; when it
+    fails the item is finished and — `continue` with `cur_item = None` and the SAME input — the
+    top-level parser sees the line. -/
+def stepLine (st : PState) (input : Bytes) : StepRes :=
+  match st.cur with
+  | .none => topLevel st input
+  | .func f ls inl =>
+    match funcSubline input with
+    | .ok rest (.origin id name) =>
+      .ok rest { st with inlineOrigins := (id, name) :: st.inlineOrigins, lines := st.lines + 1 }
+    | .ok rest (.inlinees xs) =>
+      .ok rest { st with cur := .func f ls (xs.reverse ++ inl), lines := st.lines + 1 }
+    | .ok rest (.line l) =>
+      .ok rest { st with cur := .func f (l :: ls) inl, lines := st.lines + 1 }
+    | _ =>
+      match finishCur st with
+      | .panic e => .panic e
+      | .ok st' => topLevel st' input
+  | .cfi c =>
+    match stackCfi input with
+    | .ok rest r =>
+      .ok rest { st with cur := .cfi { c with addRules := r :: c.addRules }, lines := st.lines + 1 }
+    | _ =>
+      match finishCur st with
+      | .panic e => .panic e
+      | .ok st' => topLevel st' input
+
+/-- the `loop` of parse_more over the trimmed input; every round consumes at least one byte
+    (`MdProofs`: `stepLine_consumes`), so `fuel = input.length` is enough — running out of it is
+    reported as a panic outcome and excluded by `parse_no_panic`. -/
+def linesLoop : Nat → PState → Bytes → StepRes
+  | _, st, [] => .ok [] st
+  | 0, _, _ :: _ => .panic "MODEL: parse_more loop out of fuel"
+  | fuel + 1, st, b :: bs =>
+    match stepLine st (b :: bs) with
+    | .ok rest st' => linesLoop fuel st' rest
+    | r => r
+
+/-- `input.iter().rposition(|&x| x == b'\n')` -/
+def lastNL (input : Bytes) : Option Nat :=
+  let rec go : Bytes → Nat → Option Nat → Option Nat
+    | [], _, acc => acc
+    | b :: rest, i, acc => go rest (i + 1) (if b = NL then some i else acc)
+  go input 0 none
+
+/-- `SymbolParser::parse_more` (parser.rs:445) -/
+def parseMore (st : PState) (input : Bytes) : Stream.PM PState :=
+  match lastNL input with
+  | none => .ok 0 st
+  | some idx =>
+    let inp := input.take (idx + 1)
+    match linesLoop inp.length st inp with
+    | .ok _ st' => .ok inp.length st'
+    | .err k l => .err k l
+    | .panic e => .panic e
+
+/-- canonical view of a `HashMap<u32, String>` given its insertion log (newest first):
+    sorted by key, the newest value of each key. -/
+def canonMap (log : List (Nat × Bytes)) : List (Nat × Bytes) :=
+  let sorted := log.mergeSort fun a b => a.1 ≤ b.1      -- stable: newest stays first per key
+  let rec dedup : List (Nat × Bytes) → Option Nat → List (Nat × Bytes)
+    | [], _ => []
+    | e :: rest, last => if last = some e.1 then dedup rest last else e :: dedup rest (some e.1)
+  dedup sorted none
+
+/-- map a STACK WIN vector back to records: the `tag` indexes the log, the (possibly repaired)
+    `size` comes from the vector. -/
+def winBack (infos : List StackInfoWin) (v : List (Rng × Rec)) : List (Rng × StackInfoWin) :=
+  let arr := infos.reverse.toArray
+  v.reverse.filterMap fun (r, c) => arr[c.tag]?.map fun i => (r, { i with size := c.size })
+
+/-- `SymbolParser::finish` (parser.rs:697) -/
+def finish (st0 : PState) : Outcome SymbolFile :=
+  match finishCur st0 with
+  | .panic e => .panic e
+  | .ok st =>
+    match tableP st.functions.reverse, tableP st.cfi.reverse,
+          tableP (winBack st.winFdInfos st.winFd), tableP (winBack st.winFpoInfos st.winFpo) with
+    | .ok fs, .ok cs, .ok wd, .ok wo =>
+      .ok { moduleId := st.moduleId, debugFile := st.debugFile, files := canonMap st.files,
+            publics := st.publics.reverse.mergeSort publicLe, functions := fs,
+            inlineOrigins := canonMap st.inlineOrigins, cfiStackInfo := cs,
+            winStackFramedataInfo := wd, winStackFpoInfo := wo, url := st.url }
+    | .panic e, _, _, _ => .panic e
+    | _, .panic e, _, _ => .panic e
+    | _, _, .panic e, _ => .panic e
+    | _, _, _, .panic e => .panic e
+
+/-! ### the streaming parser -/
+
+def symOps : Stream.Ops PState :=
+  { parseMore := parseMore
+    bumpLine := fun st => { st with lines := st.lines + 1 }
+    lines := fun st => st.lines }
+
+open MdModel.Gen.SymConsts in
+/-- `SymbolFile::parse(reader following `sched`, recording callback)`; `none` = out of fuel. -/
+def parseStream (input : Bytes) (sched : List Nat) : Option (Stream.Out PState × Stream.St PState) :=
+  Stream.run MAX_BUFFER_CAPACITY symOps (Stream.fuelFor input)
+    (Stream.init INITIAL_BUFFER_CAPACITY {} input sched)
+
+/-- what the caller of `parse` observes -/
+inductive Outcome' where
+  | ok (f : SymbolFile)
+  | err (kind line : Nat)
+  | panic (site : String)
+  | fuel
+
+def parseResult (input : Bytes) (sched : List Nat) : Outcome' × Bytes :=
+  match parseStream input sched with
+  | none => (.fuel, [])
+  | some (.ok ps, s) =>
+    (match finish ps with | .ok f => .ok f | .panic e => .panic e, Stream.cbBytes s)
+  | some (.err k l, s) => (.err k l, Stream.cbBytes s)
+  | some (.panic e, s) => (.panic e, Stream.cbBytes s)
+
+/-! ### canonical dump and line protocol
+
+  `sym parse <input> sched:<whole | item,item,..>`   item = `n` | `n*k` (n, k times) | `n~` (n for ever)
+  `<input>` = `.`-separated segments: plain hex, or `XX*N` = byte XX repeated N times; `-` = empty
+  answer: `ok <dump> cb:<fnv64>:<len>:<calls>` | `err <kind> <line> cb:..` | `PANIC`
+  A dump longer than 1500 characters is replaced by `#<fnv64>:<length>`. -/
+open Proto
+
+def hx (b : Bytes) : String := hex b
+
+def fnvStep (h : UInt64) (b : UInt8) : UInt64 := (h ^^^ b.toUInt64) * 0x100000001b3
+def fnvInit : UInt64 := 0xcbf29ce484222325
+def fnvBytes (h : UInt64) (bs : Bytes) : UInt64 := bs.foldl fnvStep h
+def fnvString (s : String) : UInt64 := s.toUTF8.foldl fnvStep fnvInit
+
+def rng (r : Rng) : String := s!"{r.lo}-{r.hi}"
+
+def dumpMap (m : List (Nat × Bytes)) : String :=
+  joinWith "," (m.map fun (k, v) => s!"{k}={hx v}")
+
+def dumpFunc (e : Rng × Function) : String :=
+  let f := e.2
+  s!"{rng e.1} {f.address} {f.size} {f.parameterSize} {hx f.name} L[" ++
+  joinWith "," (f.lines.map fun (r, l) => s!"{rng r} {l.address} {l.size} {l.file} {l.line}") ++ "] I[" ++
+  joinWith "," (f.inlinees.map fun i =>
+    s!"{i.depth} {i.address} {i.size} {i.callFile} {i.callLine} {i.originId}") ++ "]"
+
+def dumpCfi (e : Rng × StackInfoCfi) : String :=
+  let c := e.2
+  s!"{rng e.1} {c.init.address} {c.size} {hx c.init.rules} A[" ++
+  joinWith "," (c.addRules.map fun a => s!"{a.address}:{hx a.rules}") ++ "]"
+
+def dumpWin (e : Rng × StackInfoWin) : String :=
+  let w := e.2
+  let t := match w.thing with
+    | .programString s => "P" ++ hx s
+    | .allocatesBasePointer b => if b then "B1" else "B0"
+  s!"{rng e.1} {w.address} {w.size} {w.prologueSize} {w.epilogueSize} {w.parameterSize} " ++
+  s!"{w.savedRegisterSize} {w.localSize} {w.maxStackSize} {t}"
+
+def dump (f : SymbolFile) : String :=
+  s!"mod={hx f.moduleId},{hx f.debugFile};files:{dumpMap f.files};origins:{dumpMap f.inlineOrigins};pub:" ++
+  joinWith "," (f.publics.map fun p => s!"{p.address}/{p.parameterSize}/{hx p.name}") ++ ";func:" ++
+  joinWith ";" (f.functions.map dumpFunc) ++ ";cfi:" ++
+  joinWith ";" (f.cfiStackInfo.map dumpCfi) ++ ";wfd:" ++
+  joinWith ";" (f.winStackFramedataInfo.map dumpWin) ++ ";wfpo:" ++
+  joinWith ";" (f.winStackFpoInfo.map dumpWin) ++ ";url=" ++
+  (match f.url with | some u => hx u | none => "none")
+
+def shorten (d : String) : String :=
+  if d.length ≤ 1500 then d else s!"#{natToHex (fnvString d).toNat}:{d.length}"
+
+/-- schedule syntax; `n~` needs the input length -/
+def parseSched (s : String) (inputLen : Nat) : Option (List Nat) :=
+  if s = "whole" then some [] else
+  (pieces s ",").foldr (fun item acc =>
+    match acc with
+    | none => none
+    | some tail =>
+      if item.endsWith "~" then
+        match (item.dropEnd 1).toString.toNat? with
+        | some n => some (List.replicate (inputLen + 8) n ++ tail)
+        | none => none
+      else match (item.splitOn "*").map String.toNat? with
+        | [some n] => some (n :: tail)
+        | [some n, some k] => some (List.replicate k n ++ tail)
+        | _ => none) (some [])
+
+def answer (input : Bytes) (sched : List Nat) : String :=
+  match parseStream input sched with
+  | none => "MODEL-OUT-OF-FUEL"
+  | some (out, s) =>
+    let cbs := s.cb.reverse
+    let h := cbs.foldl fnvBytes fnvInit
+    let len := cbs.foldl (fun n c => n + c.length) 0
+    let cb := s!" cb:{natToHex h.toNat}:{len}:{cbs.length}"
+    match out with
+    | .panic _ => "PANIC"
+    | .err k l => s!"err {k} {l}" ++ cb
+    | .ok ps =>
+      match finish ps with
+      | .panic _ => "PANIC"
+      | .ok f => "ok " ++ shorten (dump f) ++ cb
+
+/-- input encoding: `.`-separated segments, each plain hex or `XX*N` (byte `XX`, `N` times);
+    `-` is the empty input. -/
+def decodeInput (h : String) : Option Bytes :=
+  if h = "-" then some [] else
+  (h.splitOn ".").foldr (fun seg acc =>
+    match acc with
+    | none => none
+    | some tail =>
+      match seg.splitOn "*" with
+      | [x] => (unhex x).map (· ++ tail)
+      | [x, n] =>
+        match unhex x, n.toNat? with
+        | some [b], some k => some (List.replicate k b ++ tail)
+        | _, _ => none
+      | _ => none) (some [])
+
+def handle (_engine : String) (args : List String) : String :=
+  match args with
+  | ["parse", h, sc] =>
+    match decodeInput h, sc.dropPrefix? "sched:" with
+    | some input, some rest =>
+      match parseSched rest.toString input.length with
+      | some sched => answer input sched
+      | none => "bad-op"
+    | _, _ => "bad-op"
+  | _ => "bad-op"
+
+end MdModel.Sym
+
 namespace MdModel.SymParse
-
 /-- line-protocol entry point of this model (engine(s): sym) -/
-def handle (_engine : String) (_args : List String) : String := "bad-op"
-
+def handle (engine : String) (args : List String) : String := MdModel.Sym.handle engine args
 end MdModel.SymParse
